@@ -125,7 +125,7 @@ func c12Agreement(t *testing.T, cases *verifx.Cases) {
 		}
 	}
 	// the same call when the client has not (or no longer) the tool's definition at hand
-	for _, knowledge := range []string{"never-listed", "list-invalidated"} {
+	for _, knowledge := range []string{"never-listed", "list-invalidated", "paged-1/call-first", "paged-1/call-last", "paged-2/call-first", "paged-2/call-middle", "paged-1/relist-first-page/call-last", "paged-2/relist-first-page/call-last"} {
 		for depth := 1; depth <= 2; depth++ {
 			for _, leaf := range []map[string]any{{"s": "plain"}, {"s": "plain", "p": "a"}, {"s": "plain", "p": "ü", "q": 7, "r": true}} {
 				idx, mine := cases.Next()
@@ -160,11 +160,29 @@ func c12Agreement(t *testing.T, cases *verifx.Cases) {
 func c12AgreementCase(depth int, args map[string]any, desc string, knowledge string) (sig, msg string) {
 	ctx := context.Background()
 	var got []json.RawMessage
-	s := NewServer(&Implementation{Name: "srv", Version: "1"}, &ServerOptions{Logger: quietLogger})
-	s.AddTool(&Tool{Name: "t", InputSchema: c12Schema(depth)}, func(ctx context.Context, r *CallToolRequest) (*CallToolResult, error) {
-		got = append(got, r.Params.Arguments)
-		return &CallToolResult{}, nil
-	})
+	sopts := &ServerOptions{Logger: quietLogger}
+	target, nTools := "t", 1
+	if strings.HasPrefix(knowledge, "paged-") {
+		// the tool list spans several pages (t, u, v, w, x in this order); the client walks all of them
+		// (and possibly fetches the first page once more) before it calls one of the tools
+		sopts.PageSize = int(knowledge[6] - '0')
+		nTools = 5
+		switch {
+		case strings.HasSuffix(knowledge, "call-last"):
+			target = "x"
+		case strings.HasSuffix(knowledge, "call-middle"):
+			target = "v"
+		}
+	}
+	s := NewServer(&Implementation{Name: "srv", Version: "1"}, sopts)
+	for _, name := range []string{"t", "u", "v", "w", "x"}[:nTools] {
+		s.AddTool(&Tool{Name: name, InputSchema: c12Schema(depth)}, func(ctx context.Context, r *CallToolRequest) (*CallToolResult, error) {
+			if name == target {
+				got = append(got, r.Params.Arguments)
+			}
+			return &CallToolResult{}, nil
+		})
+	}
 	h := NewStreamableHTTPHandler(func(*http.Request) *Server { return s }, &StreamableHTTPOptions{Stateless: true, Logger: quietLogger})
 	wire := &c12WireRT{inner: &hxTransport{Handler: h}}
 	client := NewClient(&Implementation{Name: "cli", Version: "1"}, &ClientOptions{Logger: quietLogger})
@@ -176,7 +194,23 @@ func c12AgreementCase(depth int, args map[string]any, desc string, knowledge str
 	if v := cs.InitializeResult().ProtocolVersion; v != "2026-07-28" {
 		return "c12 agreement connect", fmt.Sprintf("negotiated %s, want 2026-07-28", v)
 	}
-	if knowledge != "never-listed" {
+	if strings.HasPrefix(knowledge, "paged-") {
+		n := 0
+		for _, err := range cs.Tools(ctx, nil) {
+			if err != nil {
+				return "c12 agreement tool-not-listed", fmt.Sprintf("Tools: %v [%s]", err, desc)
+			}
+			n++
+		}
+		if n != nTools {
+			return "c12 agreement tool-not-listed", fmt.Sprintf("Tools yielded %d of %d tools [%s]", n, nTools, desc)
+		}
+		if strings.Contains(knowledge, "relist-first-page") {
+			if _, err := cs.ListTools(ctx, nil); err != nil {
+				return "c12 agreement tool-not-listed", fmt.Sprintf("ListTools: %v [%s]", err, desc)
+			}
+		}
+	} else if knowledge != "never-listed" {
 		lr, err := cs.ListTools(ctx, nil)
 		if err != nil || len(lr.Tools) != 1 {
 			return "c12 agreement tool-not-listed", fmt.Sprintf("ListTools: %v %v [%s]", lr, err, desc)
@@ -189,7 +223,7 @@ func c12AgreementCase(depth int, args map[string]any, desc string, knowledge str
 		time.Sleep(time.Second)
 		synctest.Wait()
 	}
-	res, err := cs.CallTool(ctx, &CallToolParams{Name: "t", Arguments: args})
+	res, err := cs.CallTool(ctx, &CallToolParams{Name: target, Arguments: args})
 	if err != nil || res.IsError {
 		var hdrs []string
 		for _, x := range wire.inner.exchanges() {
